@@ -1142,7 +1142,7 @@ def c16(tier):
                     {"k": "TrendFlex", "n": n}, {"k": "ReFlex", "n": n}, {"k": "EhlersFisherTransform", "n": n, "c": [E, ema(4)]},
                     {"k": "PolarizedFractalEfficiency", "n": max(n, 3), "c": [E, ema(4)]}, {"k": "Alma", "n": n}, {"k": "Cumulative", "n": n}):
             rec32.append({"cfg": cfg, "unit": 1000, "mode": "machine", "eps": [1, 100], "float": "f32",
-                          "xs": walk(rnd, 600 if tier == "quick" else 3000, 10, 10000, 400, grain=10), "k": 3})
+                          "xs": walk(rnd, 600 if tier == "quick" else 1500, 10, 10000, 400, grain=10), "k": 3})
     rec32.append({"cfg": {"k": "LaguerreFilter", "g": [4, 5]}, "unit": 1000, "mode": "machine", "eps": [1, 100], "float": "f32",
                   "xs": walk(rnd, 600, 10, 10000, 400, grain=10), "k": 3})
     # a high level relative to the spread (32768.000 .. 32768.999) in a long window, f32: level-dependent shortcuts
